@@ -1248,6 +1248,42 @@ func c01Purge(w *World, r *Report, ef *Effects) {
 			r.Bad("C01/PURGE", siteKey(Site{entry, c, posOf(c)}), w.InstrPos(c), "a purge call is not given the full Storage.History result")
 		}
 	}
+	// a purge helper reports a failed delete: from the error edge of its Storage.Delete no success return is reachable
+	for _, c := range purges {
+		pf, _ := calleeOf(c.(ssa.CallInstruction).Common())
+		if pf == nil || !inHelm(pf) || len(pf.Blocks) == 0 || FuncName(pf) == "(*pkg/storage.Storage).Delete" {
+			continue
+		}
+		pg := FullGraph(pf)
+		bad := ""
+		nDel := 0
+		for _, dc := range callInstrs(pf) {
+			_, tf := calleeOf(dc.Common())
+			if !sameTFunc(tf, del) {
+				continue
+			}
+			nDel++
+			_, badE := nilTestEdges(errResult(dc))
+			okE := okEdgesOfCall(dc)
+			if len(okE) == 0 {
+				bad = "the result of the delete at " + w.InstrPos(dc) + " is not tested"
+				continue
+			}
+			for _, rp := range pg.classifyReturns() {
+				if rp.Class != RetSuccess {
+					continue
+				}
+				for _, e := range badE {
+					if ex, _ := pg.PathExists(IPos{e.To(), -1}, retPos(rp), Avoid{}); ex {
+						bad = "after a failed delete (" + w.InstrPos(dc) + ") the helper can still return success"
+					}
+				}
+			}
+		}
+		if nDel > 0 {
+			r.Check(bad == "", "C01/PURGE", "purge-reports-failure/"+FuncName(pf), w.Pos(pf.Pos()), "a failed Storage.Delete makes the purge helper return an error", bad+": uninstall reports success while revisions remain stored")
+		}
+	}
 	_, errEdges := nilTestEdges(errResult(hist))
 	n := 0
 	for i, rp := range g.classifyReturns() {
